@@ -138,7 +138,8 @@ def generate(prop, seed, tier):
     if sc["gran"] == "opcode" and rng.random() < 0.5:
         sc["gran"] = "line"
     mode = "run" if rng.random() < 0.45 else "sequence"
-    desc = dict(seed=seed, kind=kind, intervals=intervals, sched=sc, mode=mode)
+    # (an update thread that wakes up every virtual second during a 700 s call legitimately takes many steps)
+    desc = dict(seed=seed, kind=kind, intervals=intervals, sched=sc, mode=mode, max_steps=12_000_000)
     if mode == "run":
         registry = rng.random() < 0.4
         world = worldgen.gen_world(rng, registry=registry, n_min=3, n_max=10 if tier == "quick" else 16,
@@ -324,7 +325,7 @@ def execute_sequence(prop, desc):
     seed = machine.mix_seed(desc["seed"], "seq")
     tapes = desc.get("tapes") or {}
     strategy = ("tape", tapes["0"]) if "0" in tapes else tuple(sc["strategy"])
-    sim = sched.Sim(seed, strategy=strategy, max_steps=400_000)
+    sim = sched.Sim(seed, strategy=strategy, max_steps=desc.get("max_steps", 12_000_000))
     log = dict(renders=[])
     holder = {}
     items = desc["items"]
